@@ -12,6 +12,7 @@ import time
 import traceback
 
 VERIF = os.path.dirname(os.path.dirname(os.path.abspath(__file__)))
+EVDIR = os.environ.get("VERIF_EVIDENCE_DIR", "evidence")  # matrix runs over seeded trees write elsewhere
 
 EXIT_OK, EXIT_VIOLATION, EXIT_UNDECIDED, EXIT_ENGINE = 0, 1, 2, 3
 
@@ -144,7 +145,7 @@ def check_property(mod, world, tier="quick", seed=0):
     """mod: props.Cxx module. Returns exit code; writes evidence/<id>.json."""
     prop = mod.PROP
     rep = Report(prop, tier, seed)
-    os.makedirs(os.path.join(VERIF, "evidence", "replays"), exist_ok=True)
+    os.makedirs(os.path.join(VERIF, EVDIR, "replays"), exist_ok=True)
     units = mod.build(world)
     if not units and not getattr(mod, "extra_checks", None):
         rep.say(f"ENGINE-ERROR property={prop}: no verification units")
@@ -195,7 +196,7 @@ def check_property(mod, world, tier="quick", seed=0):
                     rep.say(f"KNOWN-FINDING: property={prop} {fl['clause']} in {name} (bounded search)")
                     continue
                 fname = f"{prop}-bounded-{hashlib.sha1((fl['clause'] + name).encode()).hexdigest()[:10]}.json"
-                path = os.path.join("evidence", "replays", fname)
+                path = os.path.join(EVDIR, "replays", fname)
                 with open(os.path.join(VERIF, path), "w") as f:
                     json.dump({"property": prop, "obligation": fl["clause"], "unit": name, "verdict": "bounded native search (unit outside the deductive subset: " + err + ")", "native_replay": fl}, f, indent=1, default=str)
                 rep.violations += 1
@@ -292,7 +293,7 @@ def check_property(mod, world, tier="quick", seed=0):
         if matched_skip(kf, prop, ob) is None and key in reported:
             continue
         fname = f"{prop}-{hashlib.sha1(('|'.join(key)).encode()).hexdigest()[:10]}.json"
-        path = os.path.join("evidence", "replays", fname)
+        path = os.path.join(EVDIR, "replays", fname)
         units_failing = sorted({o["unit"] for o in failing_prop if o["name"] == ob["name"]})
         with open(os.path.join(VERIF, path), "w") as f:
             json.dump({"property": prop, "obligation": ob["name"], "unit": ob["unit"], "all_failing_units": units_failing, "path": ob["path"],
@@ -335,7 +336,7 @@ def check_property(mod, world, tier="quick", seed=0):
                     rep.say(f"KNOWN-FINDING: property={prop} {ob['name']} in {ob['unit']} (undecided by the solvers, failing input found by the bounded search)")
                     continue
                 fname = f"{prop}-{hashlib.sha1((ob['name'] + '|undecided').encode()).hexdigest()[:10]}.json"
-                path = os.path.join("evidence", "replays", fname)
+                path = os.path.join(EVDIR, "replays", fname)
                 with open(os.path.join(VERIF, path), "w") as f:
                     json.dump({"property": prop, "obligation": ob["name"], "unit": ob["unit"], "path": ob["path"],
                                "solver": {"backend": ob["backend"], "answer": "unknown (z3 and cvc5)", "seconds": ob["secs"]},
@@ -396,7 +397,7 @@ def check_property(mod, world, tier="quick", seed=0):
     ev = {"property_id": prop, "tier": tier, "seed": seed, "level": level, "coverage": cov,
           "assumptions": list(getattr(mod, "ASSUMPTIONS", [])), "wall_s": round(time.time() - rep.t0, 2),
           "violations": rep.violations}
-    with open(os.path.join(VERIF, "evidence", f"{prop}.json"), "w") as f:
+    with open(os.path.join(VERIF, EVDIR, f"{prop}.json"), "w") as f:
         json.dump(ev, f, indent=1, default=str)
     rep.say(f"{prop}: {discharged}/{len(real)} obligations discharged over {cov['paths']} paths in {len(units)} units; "
             f"exit {rep.exit}; {ev['wall_s']} s")
